@@ -21,8 +21,7 @@ GUARD = "LIBKSI_VERIF"
 NCPU = int(os.environ.get("VERIF_JOBS", "16"))
 
 SAFETY_FLAGS = ["--bounds-check", "--pointer-check", "--pointer-overflow-check",
-                "--signed-overflow-check", "--undefined-shift-check", "--div-by-zero-check",
-                "--pointer-primitive-check"]
+                "--signed-overflow-check", "--undefined-shift-check", "--div-by-zero-check"]
 
 TRUSTED_BASE = [
     "cbmc 6.11.0 C front end (goto-cc), goto-instrument --dfcc contract instrumentation, symex and the SAT/SMT back end named per job",
@@ -263,25 +262,32 @@ def run_job(job, tier, verbose=False, keep=None):
             if m and m.group(1).strip("'") not in job["nobody_ok"]:
                 raise MachineryError("function without body and without contract: %s (add a contract or list it in nobody_ok)" % m.group(1))
         seen_loop_step = False
+        # CBMC reports properties that lie behind a failed *fatal* property (e.g. a failed dereference check) as UNKNOWN:
+        # they are undecided, not failed. They only occur together with at least one FAILURE.
+        any_failure = any(r.get("status") == "FAILURE" and classify_prop(r) != "reach" for r in results)
+        n_unknown = sum(1 for r in results if r.get("status") not in ("SUCCESS", "FAILURE"))
+        if n_unknown and not any_failure:
+            raise MachineryError("%d properties undecided (UNKNOWN) without any failed property" % n_unknown)
+        res["undecided_behind_failure"] = n_unknown
         for r in results:
-            if r.get("description") == "undefined function should be unreachable" and r.get("status") != "SUCCESS":
+            if r.get("description") == "undefined function should be unreachable" and r.get("status") == "FAILURE":
                 raise MachineryError("function %s is reached but has neither body nor contract (add an env stub or a contract)"
                                      % r.get("property", "?").split(".")[0])
-            if "unwinding assertion" in r.get("description", "") and r.get("status") != "SUCCESS":
+            if "unwinding assertion" in r.get("description", "") and r.get("status") == "FAILURE":
                 raise MachineryError("unwinding assertion failed: bound too small for %s" % r.get("property"))
             k = classify_prop(r)
             name = r.get("property", "?")
             st = r.get("status")
             if k == "reach":
                 res["reach_total"] += 1
-                if st == "FAILURE":
+                if st == "FAILURE" or (st != "SUCCESS" and any_failure):
                     res["reach_ok"] += 1
                 else:
                     res.setdefault("unreachable", []).append(r["description"])
                 continue
             if k == "instr":
                 res["instr_checks"] += 1
-                if st != "SUCCESS":
+                if st == "FAILURE":
                     res["failed"].append({"obligation": name, "description": r.get("description", ""), "status": st,
                                           "function": (r.get("sourceLocation") or {}).get("function"),
                                           "line": (r.get("sourceLocation") or {}).get("line"), "instr": True})
@@ -293,7 +299,7 @@ def run_job(job, tier, verbose=False, keep=None):
                 seen_loop_step = True
             if st == "SUCCESS":
                 res["discharged"] += 1
-            else:
+            elif st == "FAILURE":
                 res["failed"].append({"obligation": name, "description": r.get("description", ""), "status": st,
                                       "function": (r.get("sourceLocation") or {}).get("function"),
                                       "file": (r.get("sourceLocation") or {}).get("file"),
